@@ -543,6 +543,9 @@ def tr_expr(cx, env, e):
                 slots = {names_[i]: a for i, a in enumerate(actual)}
                 for k in e.keywords:
                     slots[k.arg] = k.value
+                for dn_, dv_ in info.get('defaults', {}).items():
+                    # a parameter the call leaves to its default (checked against the signature of the callee below)
+                    slots.setdefault(dn_, ast.parse(dv_, mode='eval').body)
                 if sorted(slots) != sorted(names_):
                     raise Unsupported('call %s does not give every parameter' % unparse(e))
                 actual = [slots[n_] for n_ in names_]
